@@ -118,11 +118,19 @@ def check(tier, seed, procs):
     cov = bf.coverage(res, f'1 batch, update 1 committed (2-3 jobs, 1-2 nested groups), update 2 submitted step by step '
                            f'(1-2 jobs, 0-1 groups, 1-2 bunches) and committed late or never, one setup with two open updates, 2 pool instances, '
                            f'depth {depth}; monitors {MONITORS} + shadow-world differential')
-    return {'coverage': cov, 'violations': res.violations, 'assumptions': bf.ASSUME + [
+    out = {'coverage': cov, 'violations': res.violations, 'assumptions': bf.ASSUME + [
         'differential clause: compared only while no other update was opened after the uncommitted one (later updates would get different ids)'],
-            'vacuous': None if res.states > 100 else f'only {res.states} states'}
+           'vacuous': None if res.states > 100 else f'only {res.states} states'}
+    # additional phase: statement-level interleavings of pairs of these operations under a row-lock model (vf/txpairs.py)
+    from vf import txpairs
+
+    return txpairs.merge_into(out, tier, procs, MONITORS)
 
 
 def replay(obj):
+    if 'txpair' in obj:
+        from vf import txpairs
+
+        return txpairs.replay(obj)
     v = dbmc.replay_history(H, (sorted(MONITORS), base.setups('thorough'), 'thorough', None), obj['history'])
     return (not v), (v[0][1] if v else 'no violation')
